@@ -21,14 +21,14 @@ from ..families import wbmem as fam
 from ..families import wbburst as bfam
 from ..report import Report, MachineryError, ROOT, load_findings
 
-INVS = ["ReadReturnsLastWrite", "OneAckPerCycle", "NoBusError"]
+INVS = ["ReadReturnsLastWrite", "OneAckPerCycle", "NoBusError", "SlaveAddressMapped"]
 PROPS = ["Served"]
 CM = {k: k for k in INVS}
 CM["Served"] = "BoundedService"
 FAMILY = GFamily("wbmem/FlatMemGraph", "wbmem/FlatMemTrace", "harness.families.wbmem:make", hint=fam.Hint(),
                  fmt="hash", clause_map=CM,
                  describe=lambda s: "wishbone.%s(%s)" % (s["kind"], ", ".join("%s=%s" % (k, v) for k, v in sorted(s.items())
-                                                                          if k not in ("kind", "backing_bytes"))))
+                                                                          if k not in ("kind", "backing_bytes", "misses", "alone", "nofollowup"))))
 
 # ------------------------------------------------------------------------------------------- burst part
 B_INVS = ["ReadReturnsLastWrite", "BurstAddressSequence", "OneAckPerBeat", "NoBusError", "SlaveBurstSequence"]
@@ -50,6 +50,18 @@ def _bdescribe(s):
 B_FAMILY = GFamily("wbmem/FlatMemBurstGraph", "wbmem/FlatMemBurstTrace", "harness.families.wbburst:make",
                    hint=bfam.Hint(), fmt="hash", clause_map=B_CM, describe=_bdescribe)
 _WIT_RE = re.compile(r'<<"WIT", (\d+), "([^"]*)">>')
+
+
+def _wit_loop_class(seen, base):
+    """GraphLoop that collects the <<"WIT", dut, name>> lines of the last TLC run (classic part)"""
+    class WitLoop(base):
+        def stats(self):
+            res = self.final
+            if res is not None:
+                for mm in _WIT_RE.finditer(res.out):
+                    seen.setdefault(int(mm.group(1)), set()).add(mm.group(2))
+            return super().stats()
+    return WitLoop
 
 
 def _burst_loop_class(seen):
@@ -142,14 +154,16 @@ class _Recorder:
 
 
 def _notes_findings(prop):
-    """findings of notes/C07b_findings.json that /verif/known_findings.json does not list yet (by id, whatever
+    """findings of notes/C07b_findings.json and notes/C07_findings.json that /verif/known_findings.json does not list yet (by id, whatever
     their status there): lets the check run before the main agent has merged the notes"""
-    path = os.path.join(ROOT, "notes", "C07b_findings.json")
-    if not os.path.exists(path):
-        return []
     have = {f.get("id") for f in load_findings()}
-    with open(path) as fh:
-        return [f for f in json.load(fh) if f.get("id") not in have and f.get("property") == prop]
+    out = []
+    for name in ("C07b_findings.json", "C07_findings.json"):
+        path = os.path.join(ROOT, "notes", name)
+        if os.path.exists(path):
+            with open(path) as fh:
+                out += [f for f in json.load(fh) if f.get("id") not in have and f.get("property") == prop]
+    return out
 
 
 def burst_batches(cfgs, live):
@@ -243,8 +257,11 @@ def run(prop, report, tier, seed):
     report.findings = list(report.findings) + _notes_findings(prop)
     child = q = None
     if part in ("all", "burst"):
-        report.assume("burst part: Wishbone B4 registered feedback master - cyc and stb held from the first beat to the "
-                      "acknowledge of the last one (no master wait states inside a burst), every beat held until "
+        report.assume("burst part: Wishbone B4 registered feedback master - cyc held from the first beat to the "
+                      "acknowledge of the last one; stb held too, except on the DUTs with mwait = n: up to n wait states "
+                      "(cyc high, stb low) before any later beat and cyc ahead of the first stb; with junk = 1 the lines of "
+                      "cycles without a request also carry full-width writes of ones (classic or burst tags), with cyc "
+                      "and without stb or with stb and without cyc (another slave of a shared bus); every beat held until "
                       "acknowledged, the address of the current beat presented on every beat, cti 010/001 on all beats but "
                       "the last, 111 on the last, bte and we fixed per burst; bursts of 1..maxlen beats, any gap between "
                       "cycles, classic cycles and single 111 accesses interleaved; wrap-n address sequence as in the B4 "
@@ -257,14 +274,38 @@ def run(prop, report, tier, seed):
     try:
         if part in ("all", "classic"):
             cfgs = fam.configs(tier)
+            only = [k for k in os.environ.get("VERIF_C07_KINDS", "").split(",") if k]      # development aid
+            if only:
+                report.note("classic DUT kinds restricted by VERIF_C07_KINDS=%s" % ",".join(only))
+                cfgs = [c for c in cfgs if c[0]["kind"] in only]
             report.assume("one outstanding classic cycle per master, held until acknowledged; bytes carry one of two values; "
-                          "memories of 2-8 words; every chain ends in the repository's own SRAM")
-            small = [c for c in cfgs if c[0]["kind"] != "cache"]
-            big = [c for c in cfgs if c[0]["kind"] == "cache"]
+                          "memories of 2-8 words; every chain ends in the repository's own SRAM (slave latency 1); between "
+                          "requests the lines are all 0 or carry a full-width write of ones to any word without a request "
+                          "(cyc without stb, stb without cyc - another slave of a shared bus being addressed)")
+            small = [c for c in cfgs if c[0]["kind"] != "cache" and not c[0].get("alone")]
+            big = [c for c in cfgs if c[0]["kind"] == "cache" or c[0].get("alone")]
             batches = [small[i:i + 8] for i in range(0, len(small), 8)] + [[c] for c in big]
-            stats = run_batches(FAMILY, report, batches, INVS, PROPS, spec_budget=600000, total_budget=2000000,
-                                followup=True)
-            report.add(duts_explored=len(stats), clauses=INVS + PROPS, per_dut=stats)
+            seen = {}
+            old = gcheck.GraphLoop
+            gcheck.GraphLoop = _wit_loop_class(seen, old)
+            try:
+                stats = run_batches(FAMILY, report, batches, INVS, PROPS, spec_budget=600000, total_budget=2000000,
+                                    followup=True)
+            finally:
+                gcheck.GraphLoop = old
+            explored = {s["dut"] for s in stats}
+            wit = {}
+            for spec, cfg in cfgs:
+                name = FAMILY.describe(spec)
+                if name not in explored:
+                    continue                # DUT dropped after a confirmed violation: no vacuity claim needed
+                got = seen.get(cfg["wi"], set())
+                missing = set(fam.required_witnesses(spec)) - got
+                if missing:
+                    raise MachineryError("vacuity: %s never showed %s" % (name, sorted(missing)))
+                if got:
+                    wit[name] = sorted(got)
+            report.add(duts_explored=len(stats), clauses=INVS + PROPS, per_dut=stats, witnesses=wit)
     except Exception as ex:       # the burst part is still collected (its confirmed violations stand), then re-raised
         pending = ex
     if child is not None:
